@@ -624,7 +624,7 @@ def run(rep, tier):
 
 def san_shards(tier):
     """data races / UB / deadlock: TSan on the native race workloads, Miri on miniatures (each process another schedule)"""
-    return [("tsan", [("firstuse", 200 + i, 12, "tsan") for i in range(16)] + [("forced", i, 16, "tsan") for i in range(16)] + [("stress", 200 + i, 2, "tsan") for i in range(16)] + [("regrace", 200 + i, 2, "tsan") for i in range(16)]),
+    return [("tsan", [("firstuse", 200 + i, 12, "tsan") for i in range(16)] + [("forced", i, 16, "tsan") for i in range(16)] + [("stress", 200 + i, 2, "tsan") for i in range(16)] + [("regrace", 200 + i, 2, "tsan") for i in range(16)] + [("midreg", 200 + i, 6, "tsan") for i in range(8)]),
             ("miri", [("firstuse", 300 + i, 2, "miri") for i in range(16)] + [("forced", i, 64, "miri") for i in range(32)] + [("stress", 300 + i, 1, "miri") for i in range(8)] + [("regrace", 300 + i, 1, "miri") for i in range(8)])]
 
 
